@@ -24,7 +24,8 @@ void unit_io(const std::string &fn) {
     sparse<int, std::complex<double>>(fn);
     sparse<int, int>(fn);
     sparse<unsigned, float>(fn);
-    dense<double>(fn); dense<std::complex<double>>(fn); dense<int>(fn); dense<long double>(fn);
+    sparse<int, std::complex<float>>(fn);
+    dense<double>(fn); dense<std::complex<double>>(fn); dense<int>(fn); dense<long double>(fn); dense<float>(fn);
     {
         size_t n; std::vector<ptrdiff_t> ptr, col; std::vector<double> val, v;
         n = amgcl::io::crs_size<size_t>(fn);
@@ -32,6 +33,9 @@ void unit_io(const std::string &fn) {
         amgcl::io::read_crs(fn, n, ptr, col, val, 1, 2);
         size_t m; amgcl::io::dense_size(fn, n, m);
         amgcl::io::read_dense(fn, n, m, v);
+        { size_t n2; std::vector<int> p2; std::vector<long> c2; std::vector<float> v2, d2;
+          amgcl::io::read_crs(fn, n2, p2, c2, v2, 1, 2);   // all four element types distinct: offsets are checked per type
+          size_t m2; amgcl::io::read_dense(fn, n2, m2, d2, 1, 2); }
         std::ofstream f(fn);
         amgcl::io::write(f, n); amgcl::io::write(f, ptr);
     }
